@@ -26,6 +26,9 @@ var initAllowPrefixes = []string{
 	"github.com/ipfs/go-ipld-format",
 	"github.com/petar/GoLLRB",
 	"github.com/multiformats/go-multicodec",
+	"github.com/ipld/go-ipld-prime", "github.com/ipld/go-codec-dagpb", "github.com/ipfs/go-unixfsnode",
+	"github.com/ipfs/boxo/chunker", "github.com/multiformats/go-multibase", "github.com/multiformats/go-base32",
+	"github.com/multiformats/go-base36", "github.com/mr-tron/base58",
 	"errors", "io", "bufio", "bytes", "strings", "sort", "encoding/binary", "path", "path/filepath",
 	"unicode/utf8", "math/bits", "strconv", "context", "io/fs", "slices",
 }
@@ -270,6 +273,10 @@ func init() {
 			ex.unsupported("strings.Builder layout")
 			return nil
 		},
+		"github.com/libp2p/go-buffer-pool.Get": func(ex *Exec, fn *ssa.Function, a []Value) Value {
+			return ex.makeSliceOf(types.Typ[types.Uint8], a[0].(*Term), a[0].(*Term))
+		},
+		"github.com/libp2p/go-buffer-pool.Put": noop,
 		"time.Now": func(ex *Exec, fn *ssa.Function, a []Value) Value {
 			return ex.zero(fn.Signature.Results().At(0).Type())
 		},
